@@ -49,6 +49,9 @@ func c20Field(logical string) string {
 
 func (d nDoc) toBleve() map[string]interface{} {
 	m := map[string]interface{}{"title": d.Title, c20Names.Tag: d.Tag}
+	if c20TypeMapped {
+		m["_type"] = "ntype"
+	}
 	var as []interface{}
 	for _, a := range d.A {
 		am := map[string]interface{}{"x": a.X, "y": a.Y}
@@ -99,9 +102,20 @@ func c20Mapping(nested bool) mapping.IndexMapping {
 	b.Dynamic = false
 	b.AddFieldMappingsAt("z", kw())
 	dm.AddSubDocumentMapping(c20Names.B, b)
-	m.DefaultMapping = dm
+	if c20TypeMapped {
+		// the nested arrays are declared in a type mapping only; every document names that type
+		m.AddDocumentMapping("ntype", dm)
+		plain := bleve.NewDocumentStaticMapping()
+		m.DefaultMapping = plain
+	} else {
+		m.DefaultMapping = dm
+	}
 	return m
 }
+
+// c20TypeMapped: declare the document structure under a type mapping ("ntype", selected by the
+// documents' _type property) instead of the default mapping.
+var c20TypeMapped = false
 
 var c20Words = []string{"p", "q", "r"}
 
@@ -328,6 +342,8 @@ func TestC20Nested(t *testing.T) {
 		if cfg.Engine == EngScorchDisk {
 			GenScorchDiskOpts(t, "cfg", &cfg)
 		}
+		c20TypeMapped = rapid.IntRange(0, 2).Draw(t, "typeMapped") == 0
+		defer func() { c20TypeMapped = false }()
 		c20Names = rapid.SampledFrom([]c20NameSet{{"B", "tag"}, {"B", "tag"}, {"AB", "tag"}, {"B", "Atag"}, {"A_2", "A_tag"}}).Draw(t, "names")
 		defer func() { c20Names = c20NameSet{"B", "tag"} }()
 		dir := TempDir(t)
@@ -429,7 +445,7 @@ func TestC20Nested(t *testing.T) {
 		}
 		sort.Strings(parents)
 		desc := func() string {
-			return fmt.Sprintf("config %s, sibling array named %q, tag field named %q\n history %s", cfg, c20Names.B, c20Names.Tag, strings.Join(hist, "\n         "))
+			return fmt.Sprintf("config %s, type-mapped=%v, sibling array named %q, tag field named %q\n history %s", cfg, c20TypeMapped, c20Names.B, c20Names.Tag, strings.Join(hist, "\n         "))
 		}
 		// counts and match-all: parents only
 		if dc, err := nidx.DocCount(); err != nil || int(dc) != len(parents) {
@@ -530,6 +546,9 @@ func TestC20Nested(t *testing.T) {
 			}
 			if paged {
 				cl = append(cl, "search-after/before-over-parents")
+			}
+			if c20TypeMapped {
+				cl = append(cl, "nested-arrays-in-a-type-mapping")
 			}
 			if mergeWindows > 0 {
 				cl = append(cl, "merge-introduced-between-batch-preparation-and-introduction")
